@@ -423,9 +423,19 @@ def midRun (s : Spec κ ν) (st : St κ ν) (cur : Cur κ ν) : Option (St κ ν
                   maps := maps }
   else none
 
+/-- a run of the loop node ITSELF on a by-value executor (process-pool style): the node is pickled, the
+copy runs, the copy comes back through pickle and is merged into the local node
+(`Composite._parse_remotely_executed_self`: the children are replaced by the returned ones, the local
+IO channels stay and have their value links re-forged to the NEW children, outputs and input cache
+are the copy's) — observably a round trip, the run, and a round trip back -/
+def runByValue (s : Spec κ ν) (st : St κ ν) (cur : Cur κ ν) (order : List Nat) : St κ ν × Res :=
+  let r := run s (reload st) cur order
+  (reload r.1, r.2)
+
 /-- what can happen to a loop node between its creation and a later run -/
 inductive Ev (κ ν : Type)
   | run (cur : Cur κ ν) (order : List Nat)   -- a run (any inputs, any completion order)
+  | rrun (cur : Cur κ ν) (order : List Nat)  -- a run of the node itself on a by-value executor
   | reload                                   -- round trip at rest; the history continues on the copy
   | snap (cur : Cur κ ν)                     -- a run on `cur` is started, the node is pickled while its
                                              -- bodies are out, the history continues on THAT copy
@@ -433,6 +443,7 @@ inductive Ev (κ ν : Type)
 def evs (s : Spec κ ν) (st : St κ ν) : List (Ev κ ν) → St κ ν
   | [] => st
   | .run cur order :: r => evs s (run s st cur order).1 r
+  | .rrun cur order :: r => evs s (runByValue s st cur order).1 r
   | .reload :: r => evs s (reload st) r
   | .snap cur :: r => evs s ((midRun s st cur).getD st) r
 
